@@ -10,12 +10,13 @@
    bytes.  Also proved (second part of this file; the
    statements are those of P_CliOverwrite.v, P_CliTreeGen.v, P_CliFlat.v, P_CliWdir.v,
    P_CliPrint.v, P_CliFilterSkip.v, re-exported under the same names): the overwrite
-   policy, options i and w=DIR, the p command, the filter loop.  Not proved (decided on
-   every run by the reference oracle on the real tool and by the correspondence): MacOS
-   members, the tree theorem for a wildcard-selected sub-sequence, w=DIR with more than
-   one missing path component. *)
+   policy, options i and w=DIR, the p command, the filter loop.  MacOS members are covered by
+   mac_run_content / mac_extract_content and the forest theorem extract_archive_below_any.
+   Not proved (decided on every run by the reference oracle on the real tool and by the
+   correspondence): the tree theorem for a wildcard-selected sub-sequence, w=DIR with more
+   than one missing path component or a trailing '/', p for MacOS members. *)
 From Lhasa Require Import Base Generated Header Fs FsRun Glob Reader CliFilter CliExtract CliMain InputStream ListOut P_ListOut P_FsExtract P_CliExtract P_CliTree.
-From Lhasa Require P_CliOverwrite P_CliTreeGen P_CliFlat P_CliWdir P_CliPrint P_CliFilterSkip.
+From Lhasa Require P_CliOverwrite P_CliTreeGen P_CliFlat P_CliWdir P_CliPrint P_CliFilterSkip P_MacContent P_MacExtract P_CliTreeAny.
 Local Open Scope N_scope.
 
 (* '*' matches any run of bytes, '?' exactly one, any other byte itself (case-sensitive) *)
@@ -160,6 +161,20 @@ Proof. exact P_CliPrint.print_archive_output. Qed.
 Theorem filter_next_file_skips : ltac:(let t := type of P_CliFilterSkip.filter_next_file_skips in exact t).
 Proof. exact P_CliFilterSkip.filter_next_file_skips. Qed.
 
+(* MacOS members: whenever extract_file succeeds on one, the file holds
+   firstn (h_length h) (mac_out h ibs) where ibs is the inner stream (it has the header's
+   length and CRC) and mac_out h ibs = ibs when the stored length is < 128 or the first
+   128 bytes are not a MacBinary envelope for this header, and otherwise the data fork --
+   or the resource fork when the data fork is empty -- taken after the 128-byte envelope
+   (both forks empty, stored length exactly 128: the empty file).  extract_archive_below_any:
+   the forest theorem for archives whose regular members may be of either kind. *)
+Theorem mac_run_content : ltac:(let t := type of P_MacContent.mac_run_content in exact t).
+Proof. exact P_MacContent.mac_run_content. Qed.
+Theorem mac_extract_content : ltac:(let t := type of P_MacContent.mac_extract_content in exact t).
+Proof. exact P_MacContent.mac_extract_content. Qed.
+Theorem extract_archive_below_any : ltac:(let t := type of P_CliTreeAny.extract_archive_below_any in exact t).
+Proof. exact P_CliTreeAny.extract_archive_below_any. Qed.
+
 Print Assumptions glob_correct.
 Print Assumptions wildcards_select_exactly.
 Print Assumptions extraction_instance.
@@ -179,3 +194,6 @@ Print Assumptions extract_archive_wdir_created.
 Print Assumptions extract_archive_flat.
 Print Assumptions print_archive_output.
 Print Assumptions filter_next_file_skips.
+Print Assumptions mac_run_content.
+Print Assumptions mac_extract_content.
+Print Assumptions extract_archive_below_any.
